@@ -183,6 +183,8 @@ def explore(run, max_paths=20000, both=False, time_budget=None):
             if e.reason != "infeasible":
                 results.append(PathResult(ctx, "cut", e.reason))
         except Unsupported as e:
+            if ctx.frame_writes:
+                ctx.record("FRAME/no-write-to-shared-state", False, "frame", detail="; ".join(ctx.frame_writes[:3]))
             results.append(PathResult(ctx, "unsupported", str(e), error=traceback.format_exc(limit=6)))
         work.extend(ctx.pending)
         if len(results) > max_paths:
